@@ -589,6 +589,13 @@ Definition wait_rank (line : Z) (coll indep : bool) (k : nat) (a : waitarg) (r :
       (21 :: line :: Z.of_nat k :: sts, r2)
   end.
 
+(** does this rank's ncbbio_wait reach [ncmpio_driver->wait]? *)
+Definition calls_ncmpio_wait (indep : bool) (a : waitarg) : bool :=
+  match a with
+  | WAllKind num => (num =? NC_REQ_ALL) || (num =? NC_GET_REQ_ALL)
+  | WList l => (0 <? count_gets l) || negb indep
+  end.
+
 (** ncbbio_cancel_put_req *)
 Definition invalidate (a b : nat) (es : list entry) : list entry :=
   firstn a es ++ map (set_valid false) (firstn (b - a) (skipn a es)) ++ skipn b es.
@@ -641,10 +648,14 @@ Definition step (cfg : config) (ord : list wr -> list wr) (w : world) (o : op) :
       (w1, map (fun rk => 40 :: line :: Z.of_nat (fst rk) :: map (fun k => optz (w_file w1 k)) (snd rk)) who)
   | OWait line coll who =>
       let w1 := if bb_trig_wait then trigger_flush cfg ord (map fst who) w else w in
+      (* in collective mode ncmpio's wait is a collective: a rank that does not call it (wait_all
+         with NC_PUT_REQ_ALL returns after the put list) leaves the others waiting for ever *)
+      let calls := map (fun ka => calls_ncmpio_wait (w_indep w1) (snd ka)) who in
+      let w2 := if negb (w_indep w1) && existsb id calls && existsb negb calls then set_spin w1 else w1 in
       fold_left (fun (acc : world * list obs) (ka : nat * waitarg) =>
-                   let '(sts, r') := wait_rank line coll (w_indep w1) (fst ka) (snd ka) (get_rank (fst acc) (fst ka)) in
+                   let '(sts, r') := wait_rank line coll (w_indep w2) (fst ka) (snd ka) (get_rank (fst acc) (fst ka)) in
                    (set_rank (fst acc) (fst ka) r', snd acc ++ [sts]))
-                who (w1, [])
+                who (w2, [])
   | OSync line =>
       let w1 := if bb_trig_sync then trigger_flush cfg ord (all_ranks w) w else w in
       (if w_indep w1 then sync_numrecs w1 else w1, [])
